@@ -43,7 +43,7 @@ pub fn run(run: &RunInfo) -> Summary {
             depth,
             ops: all_ops.clone(),
             dangling: None,
-            reservation_menu: vec![Outcome::Ok, Outcome::Abort(0x6c), Outcome::Abort(0xfc), Outcome::NoStatus],
+            reservation_menu: vec![Outcome::Ok, Outcome::Abort(0x6c), Outcome::Abort(0xfc), Outcome::NoStatus, Outcome::OkExtraStatus],
             commit_menu: vec![Outcome::Ok, Outcome::Abort(0x6c)],
             cancel_menu: vec![Outcome::Ok, Outcome::Abort(0xb4)],
             eod_menu: vec![Eod::Completion],
@@ -85,7 +85,7 @@ pub fn run(run: &RunInfo) -> Summary {
         transitions: acc.get("transitions"),
         traces_validated: execs,
         distinct_nontrivial: acc.set_len("states"),
-        rule: format!("real Feig client against the simulated terminal (paused clock): transactions_max_num 0..=3 x all call histories of depth {depth} over {{begin, commit(0), commit(pre), cancel}} x tokens {{A,B,C}} + read_card, the terminal's outcome of every request that really arrives chosen among {{success with the smallest free receipt number, abort 6C, abort FC, completion without receipt}} (reservation) / {{completion, abort}} (commit, cancel). Every step is compared with the reference model (result class, refused calls cause no traffic, exact request incl. receipt number, clean-up when the map empties, client snapshot == model map). states = distinct (max, client map, terminal ledger)"),
+        rule: format!("real Feig client against the simulated terminal (paused clock): transactions_max_num 0..=3 x all call histories of depth {depth} over {{begin, commit(0), commit(pre), cancel}} x tokens {{A,B,C}} + read_card, the terminal's outcome of every request that really arrives chosen among {{success with the smallest free receipt number, the same followed by a further status information without receipt number, abort 6C, abort FC, completion without receipt}} (reservation) / {{completion, abort}} (commit, cancel). Every step is compared with the reference model (result class, refused calls cause no traffic, exact request incl. receipt number, clean-up when the map empties, client snapshot == model map). states = distinct (max, client map, terminal ledger)"),
         exhaustive: true,
         required_witnesses: vec![
             "three tokens open at once".into(),
